@@ -4,9 +4,10 @@ set -u
 PATCH=$1; TIER=$2; shift 2
 cd /repo
 if [ -n "$(git status --porcelain --untracked-files=no)" ]; then echo "runmut: /repo not clean"; exit 3; fi
+[ -f "${PATCH%patch.diff}patch.rebased.diff" ] && PATCH="${PATCH%patch.diff}patch.rebased.diff"
 if ! git apply --check "$PATCH" 2>/dev/null; then
-  if ! git apply --3way "$PATCH" >/dev/null 2>&1; then echo "runmut: patch does not apply: $PATCH"; git checkout -- . ; exit 4; fi
-  git reset -q
+  if ! patch -p1 --dry-run -F3 -s < "$PATCH" >/dev/null 2>&1; then echo "runmut: patch does not apply: $PATCH"; exit 4; fi
+  patch -p1 -F3 -s --no-backup-if-mismatch < "$PATCH" >/dev/null
 else git apply "$PATCH"; fi
 trap 'git -C /repo checkout -- . ' EXIT
 for P in "$@"; do
